@@ -119,6 +119,31 @@ fn ob_lock_mutex_future_pending() {
   kani::cover!(true, "END");
 }
 
+// @obligation id=lock.mutex.future_barged props=C10 kind=hist tier=quick bound="lock held; one future pending; unlock wakes it; a try_lock barger takes the lock first; the woken future is polled (Pending) and must be armed again; the barger's unlock wakes it"
+#[kani::proof]
+#[kani::stub(std::thread::current::current, crate::verif_k_stubs::stub_thread_current)]
+#[kani::unwind(6)]
+fn ob_lock_mutex_future_barged() {
+  let m = HybridMutex::new(0u8);
+  let g = m.try_lock().unwrap();
+  let w0 = waker(0);
+  let mut f = fut(&m);
+  assert!(Pin::new(&mut f).poll(&mut Context::from_waker(&w0)).is_pending());
+  drop(g); // wakes the queued future once
+  assert!(wakes(0) == 1);
+  let barger = m.try_lock().unwrap(); // somebody else wins the re-contention
+  // the woken future loses: it must stay queued AND be armed again, or the barger's unlock owes it nothing
+  assert!(Pin::new(&mut f).poll(&mut Context::from_waker(&w0)).is_pending());
+  assert!(m.k_queue_len() == 1 && m.k_word() == LOCKED | HAS_QUEUED);
+  drop(barger);
+  assert!(wakes(0) == 2, "a waiter that lost the re-contention was not woken by the next unlock");
+  let r = Pin::new(&mut f).poll(&mut Context::from_waker(&w0));
+  assert!(r.is_ready());
+  drop(r);
+  assert!(m.k_word() == 0 && m.k_queue_len() == 0);
+  kani::cover!(true, "END");
+}
+
 /// Two pending futures A (waker 0), B (waker 1); optionally the holder unlocks (wakes A); then one future
 /// is dropped.  A woken-then-dropped future must pass the wake on; a dropped future leaves the queue intact.
 fn step_future_cancel(unlock_first: bool, drop_a: bool) {
